@@ -496,8 +496,13 @@ class RefSem:
         if status != AVAIL:
             return stuck(status, "enabled input " + status)
         enabled = en.get("enabled", True)
-        if enabled in ("true", "false"):
-            enabled = enabled == "true"
+        if isinstance(enabled, (str, int)) and not isinstance(enabled, bool):
+            # constants reach the providers as text; the stage declares a bool, which has these spellings
+            low = str(enabled).lower()
+            if low in ("true", "yes", "y", "on", "1", "enable", "enabled"):
+                enabled = True
+            elif low in ("false", "no", "n", "off", "0", "disable", "disabled"):
+                enabled = False
         if enabled is False:
             st.out[("enabling", "resolved")] = (AVAIL, {"enabled": False})
             st.out[("disabled", "output")] = (AVAIL, {"message": ANYSTR})
@@ -603,8 +608,13 @@ class RefSem:
         if status != AVAIL:
             return stuck(status, "enabled input " + status)
         enabled = en.get("enabled", True)
-        if enabled in ("true", "false"):
-            enabled = enabled == "true"
+        if isinstance(enabled, (str, int)) and not isinstance(enabled, bool):
+            # constants reach the providers as text; the stage declares a bool, which has these spellings
+            low = str(enabled).lower()
+            if low in ("true", "yes", "y", "on", "1", "enable", "enabled"):
+                enabled = True
+            elif low in ("false", "no", "n", "off", "0", "disable", "disabled"):
+                enabled = False
         if enabled is False:
             st.out[("enabling", "resolved")] = (AVAIL, {"enabled": False})
             st.out[("disabled", "output")] = (AVAIL, {"message": ANYSTR})
